@@ -511,7 +511,7 @@ def gen_all(repo, out, bindir):
         wr, wr_default = reg_arms('write_byte')
         if 'NoDevice' not in rd_default:
             raise GenError('read_byte: the wildcard arm does not return NoDevice')
-    except GenError as ex:
+    except (GenError, ValueError, IndexError, KeyError, AttributeError) as ex:
         sys.stderr.write('gen: DUART register map not translated: %s\n' % ex)
         t += '(* TRANSLATION FAILED: %s *)\n' % str(ex).replace('*)', '* )')
         rd, wr = [], []
@@ -600,7 +600,7 @@ def gen_all(repo, out, bindir):
         if not m:
             raise GenError('rx_enabled: body not understood')
         t += 'Definition g_rx_enabled {A : Type} (p : port A) : bool := negb (Z.land (conf p) %s =? 0).\n' % p_value(m.group(1))
-    except GenError as ex:
+    except (GenError, ValueError, IndexError, KeyError, AttributeError) as ex:
         sys.stderr.write('gen: port helpers not translated: %s\n' % ex)
         t = t[:t.index('Open Scope Z_scope.') + len('Open Scope Z_scope.')] + '\n\n(* TRANSLATION FAILED: %s *)\n' % str(ex).replace('*)', '* )')
         for fn in ('enable_tx', 'disable_tx', 'enable_rx', 'disable_rx'):
@@ -786,7 +786,7 @@ def gen_all(repo, out, bindir):
     t += 'From Coq Require Import ZArith Bool.\nFrom Dmd Require Import Model.Bits Model.Fifo Model.Mem Model.Duart Gen.GenDuart Gen.GenPort.\nOpen Scope Z_scope.\n\n'
     try:
         t += hc_translate()
-    except (GenError, ValueError) as ex:
+    except (GenError, ValueError, IndexError, KeyError, AttributeError) as ex:
         sys.stderr.write('gen: handle_command not translated: %s\n' % ex)
         t += '(* TRANSLATION FAILED: %s *)\nDefinition g_handle_command (cmd port_no : Z) (d : duart) : duart := with_isr d (-1).\n' % str(ex).replace('*)', '* )')
     write_if_changed(os.path.join(out, 'GenCmd.v'), t)
@@ -810,7 +810,7 @@ def gen_all(repo, out, bindir):
             if not m or m.group(1) not in cc or m.group(2) not in cc:
                 raise GenError('%s_flag: body not understood' % fl)
             t += 'Definition g_%s_flag (m : mach) : bool := Z.shiftr (Z.land (R m g_%s) g_%s) %s =? 1.\n\n' % (fl, m.group(1), m.group(2), m.group(3))
-    except GenError as ex:
+    except (GenError, ValueError, IndexError, KeyError, AttributeError) as ex:
         sys.stderr.write('gen: flag helpers not translated: %s\n' % ex)
         t = t[:t.index('Open Scope Z_scope.') + len('Open Scope Z_scope.')] + '\n\n(* TRANSLATION FAILED: %s *)\n' % str(ex).replace('*)', '* )')
         for fl in 'cvzn':
@@ -934,7 +934,7 @@ def gen_all(repo, out, bindir):
     # model's functions are not equal to
     try:
         t += tr_mouse('mouse_down') + '\n' + tr_mouse('mouse_up')
-    except GenError as ex:
+    except (GenError, ValueError, IndexError, KeyError, AttributeError) as ex:
         sys.stderr.write('gen: mouse_down / mouse_up not translated: %s\n' % ex)
         t += '(* TRANSLATION FAILED: %s *)\n' % str(ex).replace('*)', '* )')
         t += 'Definition g_mouse_down (d : duart) (button : Z) : duart := d.\nDefinition g_mouse_up (d : duart) (button : Z) : duart := d.\n'
